@@ -4,15 +4,23 @@ import OnlVerif.Lemmas.ResStep
 /-!
 # "Exactly once": the domain hypothesis and the invariants
 
-* `SafeCall`, `SafeBurst`, `SafeResume`, `SafeIntr`, `SafeCb`, `SafeCbs`, `SafeStep`: the domain hypothesis of the
-  "scheduled at most once" theorems, as a predicate over what a step *executes*.  It mirrors the control flow of
-  `resume` / `deliverInterrupt` / `runCb` / `step` and demands of every executed API call `succeed e` / `fail e` that
-  its target is an existing plain event or condition (or already triggered, in which case the call is refused), and
-  of every executed `yield e` that `e` exists and is not an `Interruption` aimed at the yielding process itself
-  (user code cannot get hold of such an object in the implementation; in the model event ids can be guessed).
+* `SafeCall`, `SafeBurst`, `SafeResume`, `SafeIntr`, `SafeCb`, `SafeCbs`, `SafeStep`, `SafeRun`: the domain
+  hypothesis of the "scheduled at most once" theorems (DESIGN §3), as a predicate over what a step *executes*.  It
+  mirrors the control flow of `resume` / `deliverInterrupt` / `runCb` / `step` and demands of every executed API call
+  `succeed e` / `fail e` that its target is an existing plain event or condition (or already triggered, in which case
+  the call is refused), and of every executed `yield e` that `e` exists and is not an `Interruption` aimed at the
+  yielding process itself (user code cannot get hold of such an object in the implementation; in the model event ids
+  can be guessed).  Targets that are excluded because the kernel triggers them later *without* checking `triggered`:
+  process events (`finishProc`), put/get requests (`_do_put`/`_do_get` inside the queue scans), non-existent ids.
+  `SafeProg` is a sufficient condition on the program text; `Lemmas/OnceDec.lean` makes `SafeStep` decidable.
+* `NoHangResume` … `NoHangRun`: "no `_resume` loop runs out of fuel" (strict mode), the hypothesis under which no
+  process can be stuck on an already processed target.
 * `InvC` (core), `InvQ` (request queues), `InvL` (no live process is lost): the invariant, parametrised by a ghost
   value that describes where inside a step we are (callbacks still to run, the event they belong to, the process
-  whose burst is running).
+  whose burst is running).  Proof structure: `OnceAccess` (reading back after leaf updates), `OnceCore`/`OnceQL`
+  (each *shape* of state change keeps the invariant), `OnceRes` (interrupt creation, resource scans, requests),
+  `OnceCall` (conditions, every API call, whole bursts for every program), `OnceStep` (`register`, `finishProc`,
+  `_resume`, interrupt delivery, the callback loop), `OnceRun` (the pop, a step, whole runs, initial states).
 -/
 
 namespace Once
